@@ -431,9 +431,18 @@ def csr_assembly_rule(ctx):
     I.call_hook = hook
     obj = XObj(simu, {})
 
-    def entries(tag, isMatrix, rep):
+    def entries(tag, isMatrix, rep, cx=False):
         g = gA if tag == "A" else gB
         n = g.attrs["nPe"] * dof_n
+        if cx:
+            # complex element entries: x + I y with the formal imaginary unit
+            from ..xeval import IMAG
+
+            sh = (g.attrs["Ne"], n, n) if isMatrix else (g.attrs["Ne"], n)
+            cnt = 1
+            for d in sh:
+                cnt *= d
+            return XArray(sh, [Poly.var(f"re{tag}{rep}_{k}") + IMAG * Poly.var(f"im{tag}{rep}_{k}") for k in range(cnt)])
         if isMatrix:
             return XArray((g.attrs["Ne"], n, n), [Poly.var(f"{tag}{rep}_{e}_{i}_{j}") for e in range(g.attrs["Ne"]) for i in range(n) for j in range(n)])
         return XArray((g.attrs["Ne"], n), [Poly.var(f"f{tag}{rep}_{e}_{i}") for e in range(g.attrs["Ne"]) for i in range(n)])
@@ -441,13 +450,14 @@ def csr_assembly_rule(ctx):
     def dofs(tag, e, i):
         return conns[tag][e][i // dof_n] * dof_n + i % dof_n
 
-    cases = [("matrix, both groups", True, ("A", "B")), ("matrix, second group absent (None)", True, ("A",)), ("matrix, first group absent (None)", True, ("B",)), ("vector, both groups", False, ("A", "B"))]
-    for label, isMatrix, present in cases:
+    cases = [("matrix, both groups", True, ("A", "B"), False), ("matrix, second group absent (None)", True, ("A",), False), ("matrix, first group absent (None)", True, ("B",), False), ("vector, both groups", False, ("A", "B"), False),
+             ("complex matrix, both groups", True, ("A", "B"), True), ("complex vector, both groups", False, ("A", "B"), True)]
+    for label, isMatrix, present, cx in cases:
         for rep in (0, 1):  # the second pass reuses the memoised map
             r.instance(fn=fA.qualname)
             data = {}
             for tag, g in (("A", gA), ("B", gB)):
-                data[g] = entries(tag, isMatrix, rep) if tag in present else None
+                data[g] = entries(tag, isMatrix, rep, cx) if tag in present else None
             try:
                 M = I.call_function(fA, [data, dof_n, Ndof, isMatrix], self_obj=obj)
             except XRaise as e:
